@@ -11,7 +11,7 @@ META = {
                    "(RX2); print/parse tables (RT-P); resolution of ':name' against the listing COND file's directory (REL1); "
                    "__eq__/__hash__ agreement (HASH1); combine() rejects dependencies whose names coincide, because its entries are "
                    "named by task name alone (CB3). cond gc parses output-directory names with exactly the grammar they are created with (RX1 on gc's patterns, GC1/GC2). cond restore refuses a destination directory that already exists, so an archived version never shares a directory with a local one (RS2).",
-    "rules": ["RX1", "RX2", "RT-P", "REL1", "HASH1", "CB3", "GC1", "GC2", "RX1(gc)", "RS2", "CLI-ID"],
+    "rules": ["RX1", "RX2", "RT-P", "REL1", "HASH1", "CB3", "GC1", "GC2", "RX1(gc)", "RS2", "CLI-ID", "VI2"],
     "assumptions": ["re._parser's AST is the engine's semantics (cross-checked on the witnesses in the engine self-check)"],
     "trusted": ["ast parser", "re._parser", "constant folder"],
     "technique": "static analysis: regex AST → symbolic-alphabet DFA language equivalence, plus AST agreement rules",
@@ -214,6 +214,9 @@ def run(A, rep, tier):
     from . import archive_restore as AR
     AR.rule_rs2(A, rep)
     rule_cli_id(A, rep)
+    # identifiers read back from a version index (possibly a foreign one, in an archive) are parsed by from_str too
+    from . import vindex as VX
+    VX.rule_vi2(A, rep)
 
 
 def rule_cli_id(A, rep):
